@@ -109,6 +109,7 @@ type Result struct {
 	Required     []string            `json:"required"` // observed keys that must be > 0 or the check is broken
 	Extra        map[string]interface{} `json:"extra,omitempty"`
 	Exhaustive   bool                `json:"exhaustive,omitempty"`
+	Broken       []string            `json:"broken,omitempty"` // the check itself is broken (harness bug): exit 2
 	mu           sync.Mutex
 }
 
@@ -171,6 +172,15 @@ func (r *Result) Inconc(why string) {
 	r.mu.Unlock()
 }
 
+// Break records that the check itself misbehaved (e.g. a data race inside harness code).
+func (r *Result) Break(why string) {
+	r.mu.Lock()
+	if len(r.Broken) < 20 {
+		r.Broken = append(r.Broken, why)
+	}
+	r.mu.Unlock()
+}
+
 func (r *Result) Assume(s string) {
 	r.mu.Lock()
 	for _, a := range r.Assumptions {
@@ -211,6 +221,7 @@ func (r *Result) Merge(o *Result) {
 		}
 	}
 	r.Violations = append(r.Violations, o.Violations...)
+	r.Broken = append(r.Broken, o.Broken...)
 	r.Inconclusive = append(r.Inconclusive, o.Inconclusive...)
 	for _, a := range o.Assumptions {
 		dup := false
@@ -387,6 +398,12 @@ func Finish(verifDir string, r *Result, tier string, seed int64, level string, r
 	}
 	if err := os.WriteFile(evPath, b, 0o644); err != nil {
 		fmt.Fprintf(os.Stderr, "BROKEN: cannot write evidence: %v\n", err)
+		return 2
+	}
+	if len(r.Broken) > 0 {
+		for _, b := range r.Broken {
+			fmt.Fprintf(os.Stderr, "BROKEN: property=%s %s\n", r.Property, truncate(b, 1500))
+		}
 		return 2
 	}
 	if exit == 0 && len(broken) > 0 {
